@@ -686,6 +686,41 @@ def r24(e: Engine, rep: Report):
                 'per-recipient failure mapping is acknowledged as success',
                 loc=calls[0].loc())
         return
+    # kept through a helper: every way the helper comes back carries the
+    # relay's answer or the error it raised - not an implicit None, which
+    # the scan below reads as "nothing failed"
+    for _pth, s2 in got:
+        if s2.ast.value is calls[0].ast or not isinstance(s2.ast.value,
+                                                          ast.Call):
+            continue
+        kids = [c for c in getattr(s2.frame, 'children', ())
+                if c.call is s2.ast.value]
+        for kf in kids:
+            fn = kf.ctx.func.node
+            hnames = {h.name for h in ast.walk(fn)
+                      if isinstance(h, ast.ExceptHandler) and h.name}
+            rets = [r for r in g.of_kind('stmt')
+                    if isinstance(r.ast, ast.Return) and r.frame is kf]
+            crs = [c for c in g.of_kind('call_return')
+                   if c.extra.get('callee_frame') is kf]
+            fall = any(p.frame is kf and not (
+                p.kind == 'stmt' and isinstance(p.ast, ast.Return))
+                for c in crs for _l, p in c.pred)
+            empty = [r for r in rets if r.ast.value is None or not (
+                any(y is calls[0].ast for y in ast.walk(r.ast.value)) or
+                any(isinstance(y, ast.Name) and y.id in hnames
+                    for y in ast.walk(r.ast.value)))]
+            rep.evaluations += 1
+            rep.check(not fall and not empty, 'R2.4', where,
+                      'the helper hands back the relay result on every way '
+                      'out', '%s can come back without the value of '
+                      'relay._attempt() and without the error it raised '
+                      '(%s): enqueue() reads that as a message the relay '
+                      'took' % (kf.ctx.func.name, 'it falls off its end'
+                                if fall else 'a bare / unrelated return'),
+                      loc=(empty[0] if empty else s2).loc(),
+                      reason='every return carries the result or the '
+                      'caught error')
     rv = got[0][0]
     # data-flow closure of the result variable (results = list(x.values()))
     dep = {pth for pth, _ in got}
